@@ -234,7 +234,7 @@ DEFAULT_WEIGHTS = {'call': 12, 'hammer': 0, 'dump': 1, 'load': 1, 'dumpk': 1, 'l
 def cache_cases(draw, modules=('std', 'safe'), algos=tuple(H.ALGOS), maxsizes=(1, 2, 3, 5),
                 backends=tuple(H.BACKENDS_ALL), weights=None, max_ops=30, min_ops=1, pool=(3, 7),
                 purges=(False, True), shapes=None, allow_default_keymap=True, ms_pos=(False,),
-                rich_args=False, info_preserving_only=True, mem_weight=0, extra=None, unhashable_ok=False, prefill_pct=0, raising_pct=0, attach_later_pct=0,
+                rich_args=False, info_preserving_only=True, mem_weight=0, extra=None, unhashable_ok=False, prefill_pct=0, raising_pct=0, attach_later_pct=0, confusable_pct=30,
                 tols=(None,), deeps=(False,), ignores=(None,), float_pct=0):
     w = dict(DEFAULT_WEIGHTS)
     w.update(weights or {})
@@ -295,12 +295,14 @@ def cache_cases(draw, modules=('std', 'safe'), algos=tuple(H.ALGOS), maxsizes=(1
                     nb[kind][i][1] = list(v)
                 if nb not in pool_b:
                     pool_b.append(nb)
-    if draw(st.integers(0, 9)) < 3:
+    has_confusable_pair = False
+    if draw(st.integers(0, 99)) < confusable_pct:
         # a pair of calls that differ ONLY in one 'confusable' character of one string argument (x:y / x|y / x_y ...):
         # the shape that exposes a lossy key -> storage-name mapping
-        for b in draw(confusable_pair(pool_b[draw(st.integers(0, len(pool_b) - 1))], forbidden)):
-            if b not in pool_b:
-                pool_b.append(b)
+        pair = draw(confusable_pair(pool_b[draw(st.integers(0, len(pool_b) - 1))], forbidden))
+        pair = [b for b in pair if b not in pool_b]
+        pool_b.extend(pair)
+        has_confusable_pair = len(pair) == 2          # then they are the last two pool entries
     npool = len(pool_b)
     ops = draw(op_lists(w, npool, min_ops, max_ops))
     attach_later = bool(attach_later_pct and backend.startswith('cache_') and backend != 'cache_null' and draw(st.integers(0, 99)) < attach_later_pct)
@@ -322,6 +324,8 @@ def cache_cases(draw, modules=('std', 'safe'), algos=tuple(H.ALGOS), maxsizes=(1
     }
     if attach_later:
         case['attach_later'] = True
+    if has_confusable_pair:
+        case['confusable_pair'] = True
     if tol is not None:
         case['tol'] = tol
         case['deep'] = draw(st.sampled_from(deeps))
